@@ -223,13 +223,11 @@ Definition ex_rtcp : list rtcp :=
    Psfb 15 3 4 [82; 69; 77; 66; 0; 0; 0; 0];
    Bye [5; 6]].
 
-Example C07_example_nack_canonical : nack_canonical [65534; 65535; 0; 1; 17; 20000] /\
-                                      nack_canonical [0; 1; 65534; 65535].
-Proof.
-  split.
-  - apply nack_canonical_chain; [lia|]. cbn [nack_chain]. lia.
-  - apply nack_canonical_ascending; [lia|]. cbn [nack_ascending]. lia.
-Qed.
+Example C07_example_nack_canonical : nack_canonical [65534; 65535; 0; 1; 17; 20000].
+Proof. apply nack_canonical_chain; [lia|]. cbn [nack_chain]. lia. Qed.
+
+Example C07_example_nack_sorted : nack_canonical [0; 1; 65534; 65535].
+Proof. apply nack_canonical_ascending; [lia|]. cbn [nack_ascending]. lia. Qed.
 
 Example C07_example_wf_rtcp : Forall wf_rtcp ex_rtcp.
 Proof.
@@ -237,7 +235,7 @@ Proof.
   - split; [lia|]. split; [|cbn [length]; lia]. repeat constructor; cbn; unfold RtcpPktP.is_u32; lia.
   - split; [|split; [cbn [length]; lia|cbn; lia]].
     repeat constructor; cbn [fst snd length]; unfold RtcpPktP.is_u32, byte_ok; lia.
-  - split; [lia|]. split; [lia|]. split; [lia|]. split; [apply C07_example_nack_canonical|cbn; lia].
+  - split; [lia|]. split; [lia|]. split; [lia|]. split; [exact C07_example_nack_canonical|unfold zlen; cbn [length]; lia].
   - split; [lia|]. split; [lia|]. split; [lia|]. split; [repeat constructor; unfold byte_ok; lia|].
     split; [reflexivity|cbn; lia].
   - split; [|cbn [length]; lia]. repeat constructor; unfold RtcpPktP.is_u32; lia.
